@@ -4,6 +4,7 @@ mod core;
 mod fam_a;
 mod fam_b;
 mod fam_c;
+mod fam_d;
 mod hist;
 mod json;
 mod oracle_a;
@@ -44,6 +45,7 @@ fn family_props(f: &str) -> &'static [&'static str] {
         "A" => &["C01", "C02", "C03", "C07", "C08", "C18"],
         "B" => &["C04", "C15", "C01", "C02", "C18"],
         "C" => &["C05", "C06", "C02", "C18"],
+        "D" => &["C09", "C10", "C14", "C16", "C03"],
         _ => &[],
     }
 }
@@ -53,6 +55,7 @@ fn run_one(family: &str, seed: u64, tiny: bool, focus: &str) -> Outcome {
         "A" => fam_a::run(seed, tiny, focus),
         "B" => fam_b::run(seed, tiny, focus),
         "C" => fam_c::run(seed, tiny, focus),
+        "D" => fam_d::run(seed, tiny, focus),
         _ => panic!("unknown family {}", family),
     }
 }
